@@ -1,6 +1,6 @@
 (* C10 - Ungrouping grouped notes restores the original note stream.  Statements only. *)
-From Coq Require Import List Arith ZArith NArith Bool Sorting.Sorted.
-From SV Require Import Sx Str Notes Group Proofs.GroupRefine Proofs.C09 Proofs.C10.
+From Coq Require Import List Arith ZArith NArith Bool Sorting.Sorted Sorting.Permutation.
+From SV Require Import Sx Str Notes Group Proofs.GroupRefine Proofs.C09 Proofs.C10 Proofs.C10ByType.
 Import ListNotations.
 Local Open Scope nat_scope.
 
@@ -34,6 +34,38 @@ Theorem C10_roundtrip_nojoin : forall types m ph pt pol ns g,
   group_notes types m false ph pt ns = GOk g -> ungroup_notes pol g = UOk (filter (included types) ns).
 Proof. exact roundtrip_nojoin. Qed.
 Print Assumptions C10_roundtrip_nojoin.
+
+(* per-type grouping (JOIN_BY_NOTE_TYPE), with joining, any orphan policies, any ungroup policy: ungrouping succeeds
+   and yields the same notes as the other modes (a permutation of [kept ...], so exactly the included notes when
+   orphans are kept), with beats that never decrease.  No orphaned_notes policy ever fires: no note lies inside a
+   joined hold of its column, whatever the order inside a row. *)
+Theorem C10_roundtrip_by_type : forall p0 types ph pt pol ns g,
+  StronglySorted lt ns -> Forall (wf p0) ns ->
+  group_notes types JoinByNoteType true ph pt ns = GOk g ->
+  exists out, ungroup_notes pol g = UOk out /\
+              Permutation out (kept ph pt [] (filter (included types) ns)) /\ StronglySorted ble out.
+Proof. exact roundtrip_join_bytype. Qed.
+Print Assumptions C10_roundtrip_by_type.
+
+Theorem C10_roundtrip_by_type_nojoin : forall p0 types ph pt pol ns g,
+  StronglySorted lt ns -> Forall (wf p0) ns ->
+  group_notes types JoinByNoteType false ph pt ns = GOk g ->
+  exists out, ungroup_notes pol g = UOk out /\
+              Permutation out (filter (included types) ns) /\ StronglySorted ble out.
+Proof. exact roundtrip_nojoin_bytype. Qed.
+Print Assumptions C10_roundtrip_by_type_nojoin.
+
+(* the engine of both: any list of items in which no note lies inside a joined hold of its column ([good]), heads
+   distinct and beats non-decreasing, ungroups under every policy to a permutation of its notes, beats non-decreasing *)
+Theorem C10_ungroup_any_order : forall p0 ns pol L,
+  StronglySorted lt ns -> Forall (wf p0) ns ->
+  good ns L -> StronglySorted hble L -> NoDup (map item_head L) ->
+  exists out, ungroup_go pol L [] [] = UOk out /\ Permutation out (flat_map item_notes L) /\ StronglySorted ble out.
+Proof.
+  intros p0 ns pol L Hs Hwf Hg Hh Hnd.
+  destruct (run p0 ns Hs Hwf pol L [] [] [] Hg Hh Hnd (inv_init ns L)) as (out & E & P & S). exists out. auto.
+Qed.
+Print Assumptions C10_ungroup_any_order.
 
 (* the general invariant behind both: from any reachable point of the stream *)
 Theorem C10_invariant : forall p0 pol ph pt ns rp S P' acc,
